@@ -46,14 +46,14 @@ Panicked(obs) == {s \in DOMAIN obs : obs[s] = "panic"}
 GKindAt(g, n) == IF n = 0 THEN g.root ELSE g.steps[n].to
 IsInlinedPathItemCycle(line, bad) ==
    /\ bad = {"returns_normally"} /\ line.c.base.kind = "graph" /\ "g" \in DOMAIN line.c /\ "died_in" \in DOMAIN line
-   /\ line.died_in \in {"marshal_after", "internalize_again"} /\ line.obs[line.died_in] = "crash"
+   /\ line.died_in \in {"marshal_after", "internalize_again"} /\ line.obs[line.died_in] \in {"crash", "hang"}   \* (as above)
    /\ LET g == line.c.g IN
         /\ GKindAt(g, g.close.back) = "pathItem"
         /\ \E n \in g.close.back..Len(g.steps) : GKindAt(g, n) = "callback"
 SelfOps == {"schema_self_allof_default", "schema_self_anyof_example", "schema_self_not_default"}
 Class(line, bad) ==
    IF bad = {"returns_normally"} /\ line.c.base.comps = "full" /\ Len(line.c.muts) = 1 /\ line.c.muts[1].op \in SelfOps
-      /\ (\E s \in DOMAIN line.obs : line.obs[s] = "crash") THEN "self_composition_value_check_overflows" ELSE
+      /\ (\E s \in DOMAIN line.obs : line.obs[s] \in {"crash", "hang"}) THEN   \* (the watchdog may fire before the 1 GB stack is used up) "self_composition_value_check_overflows" ELSE
    IF IsInlinedPathItemCycle(line, bad) THEN "internalize_inlines_path_item_cycle" ELSE
    LET ms == (IF "applied" \in DOMAIN line THEN line.applied ELSE <<>>)  msg == IF "msg" \in DOMAIN line THEN line.msg ELSE "" IN
    IF bad # {"returns_normally"} \/ \E s \in DOMAIN line.obs : line.obs[s] \in {"hang", "crash"} THEN "none"
